@@ -40,6 +40,7 @@ fn vec_of(a: &[u8]) -> Vec<u8> {
 //# props: C27
 //# kind: complete (every u64; loops bounded by the 8-byte width, unwinding assertion)
 //# fns: inscriptions::inscription::Inscription::pointer_value, inscriptions::inscription::Inscription::pointer
+//# timeout: 900
 #[cfg_attr(kani, kani::proof)]
 #[cfg_attr(kani, kani::unwind(11))]
 pub fn c27_pointer_round_trip() {
@@ -62,6 +63,7 @@ pub fn c27_pointer_round_trip() {
 //# props: C27, C16
 //# kind: bounded(field of 0..=12 bytes, every byte symbolic; bytes past the eighth are only tested for zero)
 //# fns: inscriptions::inscription::Inscription::pointer
+//# timeout: 900
 #[cfg_attr(kani, kani::proof)]
 #[cfg_attr(kani, kani::unwind(15))]
 pub fn c27_pointer_exact() {
@@ -93,7 +95,7 @@ pub fn c27_pointer_exact() {
 //# props: C27
 //# kind: bounded(delegate field of 34 symbolic bytes; two parent fields of 33 and 8 symbolic bytes)
 //# fns: inscriptions::inscription::Inscription::delegate, inscriptions::inscription::Inscription::parents
-//# timeout: 600
+//# timeout: 900
 #[cfg_attr(kani, kani::proof)]
 #[cfg_attr(kani, kani::unwind(40))]
 pub fn c27_delegate_and_parents() {
